@@ -3,7 +3,7 @@ from __future__ import annotations
 import ast, z3, time, os, glob, traceback
 from typing import Any, Dict, List, Optional, Tuple
 from . import front, smt
-from .front import OutsideSubset, ContractError, Contract
+from .front import OutsideSubset, ContractError, Contract, EffectMissing
 from .smt import T, parse_T, Ref, Dyn, Flt, Int, Bool, Str
 from .values import *
 from .state import *
@@ -350,8 +350,12 @@ class Engine(Interp, ExecMixin, EvalMixin, CallMixin, BuiltinMixin):
                 self.ev(st, le)          # ghost call at exit: the lemma's requires are obligations, its ensures are assumed
             env["result" if "result" not in [p for p, _ in c.params] else "result_"] = res
             for i, e in enumerate(c.options.get("ensures_effects") or []):
-                self.oblige(st, f"{short}#effects[{i}]", self.truthy(st, self.ev_spec(st, e)), "post", assume_after=False,
-                            meta={"clause": ast.unparse(e)})
+                try:
+                    g = self.truthy(st, self.ev_spec(st, e))
+                except EffectMissing as em:
+                    g = z3.BoolVal(False)      # the clause talks about a call that did not happen on this path
+                    st.trail.append(str(em)[:120])
+                self.oblige(st, f"{short}#effects[{i}]", g, "post", assume_after=False, meta={"clause": ast.unparse(e)})
             for i, (cls, cc) in enumerate(raise_conds):
                 self.oblige(st, f"{short}#raises-iff[{cls}.{i}]", z3.Not(cc), "raises", assume_after=False)
             for i, g in enumerate(must_raise):
